@@ -1716,7 +1716,11 @@ impl<'a> Interp<'a> {
             if act == "append_record" {
                 if let Some(r) = Rec::from_json(&st["rec"].to_string()) {
                     let bucket_key = self.key_of_bucket_ref(&st["bucket"]);
-                    if r.key != bucket_key {
+                    if !r.integrity.as_deref().map(fmt::sri_parses).unwrap_or(true) {
+                        // not an integrity value: the record is ignored by every reader
+                        self.probe("record_with_unparsable_integrity");
+                        self.strict_format = false;
+                    } else if r.key != bucket_key {
                         self.m.foreign = true;
                         self.probe("bucket_shared_by_foreign_key");
                     } else {
